@@ -3,7 +3,6 @@
 //@derive-keep Clone|Copy
 //@hoist-closure-patterns :: closure parameter patterns hoisted into a let (Verus accepts only variables as closure parameters)
 //@map-collect-to-loop layout_expressions :: Verus rejects closures that capture a mutable reference (the closure pushes into step_mode_params): the `.map(closure).collect()` is turned into the loop std executes - closure body once per element in order, results pushed in order; receiver and closure body are the real tokens
-//@rewrite `.to_snake()` => `.shim_to_snake()` :: case::CaseExt::to_snake is a foreign trait method without specification; stand-in returning an uninterpreted function of the text (spec/lib/vec_shims.rs)
 //@hoist-format-captures :: format! inline captures hoisted to positional arguments
 //@rewrite `.parse().unwrap()` => `.shim_parse_tokens()` :: str::parse::<TokenStream>() is generic over FromStr; stand-in returning the tokens as an uninterpreted function of the text, precondition: the text lexes (spec/lib/tokens.rs)
 //@rewrite `.filter_map(` => `.shim_filter_map(` :: provided trait method Iterator::filter_map: stand-in with the std meaning (spec/lib/iter_shims.rs)
@@ -27,6 +26,7 @@ extern crate rustc_hash;
 use naga::StructMember;
 use naga::ShaderStage;
 extern crate case;
+use case::CaseExt;
 use proc_macro2::{TokenStream, Literal, Span};
 use syn::Ident;
 #[path = "../../spec/lib/prelude.rs"] pub mod prelude;
@@ -271,13 +271,14 @@ pub fn get_vertex_input_structs(module: &naga::Module) -> «(r:» Vec<VertexInpu
 
     // Remove structs that are used more than once.
     structs.shim_sort_by_key(|s| «-> (o: String) ensures o == s.name {» s.name.clone() «}»);
-    «let ghost sorted = structs@;»
     structs.shim_dedup_by_key(|s| «-> (o: String) ensures o == s.name {» s.name.clone() «}»);
     «proof {
-        let ks1 = choose|ks: Seq<String>| #![trigger stably_sorted(all, ks, sorted)] ks.len() == all.len()
-            && (forall|i: int| 0 <= i < ks.len() ==> #[trigger] ks[i] == all[i].name) && stably_sorted(all, ks, sorted);
-        let ks2 = choose|ks: Seq<String>| #![trigger run_heads(ks)] ks.len() == sorted.len()
-            && (forall|i: int| 0 <= i < ks.len() ==> #[trigger] ks[i] == sorted[i].name) && structs@ == keep(sorted, run_heads(ks));
+        // the state between the two calls is named by what the two contracts say about it: sorted from `all`, and the
+        // final vector is its run heads (without the sort, or without the dedup, no such state exists and this fails)
+        let (sorted, ks1, ks2) = choose|sorted: Seq<VertexInput>, ks1: Seq<String>, ks2: Seq<String>|
+            #![trigger stably_sorted(all, ks1, sorted), run_heads(ks2)]
+            ks1.len() == all.len() && (forall|i: int| 0 <= i < ks1.len() ==> #[trigger] ks1[i] == all[i].name) && stably_sorted(all, ks1, sorted)
+            && ks2.len() == sorted.len() && (forall|i: int| 0 <= i < ks2.len() ==> #[trigger] ks2[i] == sorted[i].name) && structs@ == keep(sorted, run_heads(ks2));
         lemma_discovery(module, all, ks1, sorted, ks2);
     }»
 
@@ -326,6 +327,7 @@ fn vertex_input_structs(module: &naga::Module) -> «(r:» Vec<TokenStream>«)
             .map(|__p0| «-> (o: TokenStream) requires field_ok(module, __p0.1) ensures ts_view(&o) == attr_toks(module, input.name@, *__p0)» { let (location, m) = __p0;
                 let field_name: TokenStream = m.name.as_ref().unwrap().shim_parse_tokens();
                 let location = Literal::usize_unsuffixed(*location as usize);
+                «assert(lit_view(&location) == Tok::LitU(__p0.0 as int)); // [C07.attr-location] the attribute carries the member's own @location»
                 let format = crate::wgsl::vertex_format(&module.types[m.ty]);
                 «proof { lemma_vf_of(format, vtys(module)[handle_index(m.ty)].inner); }»
                 // TODO: Will the debug implementation always work with the macro?
@@ -423,7 +425,7 @@ pub fn vertex_states(module: &naga::Module) -> «(r:» TokenStream«)
                        let ghost le0 = __acc_layout_expressions@;»
                        let __o = {
                         let name = Ident::new(&input.name, Span::call_site());
-                        let step_mode = Ident::new(&input.name.shim_to_snake(), Span::call_site());
+                        let step_mode = Ident::new(&input.name.to_snake(), Span::call_site());
                         step_mode_params.push(quote!(#step_mode: wgpu::VertexStepMode));
                         quote!(#name::vertex_buffer_layout(#step_mode))
                     }; __acc_layout_expressions.push(__o);
